@@ -54,6 +54,7 @@ pub struct Uplinks {
     write_queue: VecDeque<(UplinkKind, u64)>, //Queue tracking which uplink should be written next.
     special_queue: VecDeque<SpecialAction>, //Queue of special actions (primarily link/unlink messages) which take precedence over uplinks.
     completion: promise::Sender<DisconnectionReason>, //Promise to be satisfied when the remote is closed.
+    generation: u64, //Distinguishes successive registrations of the same remote ID.
 }
 
 /// The type of entries that can be pushed into the queue.
@@ -94,7 +95,22 @@ impl Uplinks {
             write_queue: Default::default(),
             special_queue: Default::default(),
             completion,
+            generation: 0,
         }
+    }
+
+    /// Mark this registration (and its sender) with a generation number so that a sender that belonged
+    /// to an earlier registration of the same remote ID can be recognised when it is returned.
+    pub fn with_generation(mut self, generation: u64) -> Self {
+        self.generation = generation;
+        if let Some((sender, _)) = self.writer.as_mut() {
+            sender.set_generation(generation);
+        }
+        self
+    }
+
+    pub fn generation(&self) -> u64 {
+        self.generation
     }
 
     /// Push a special action into the queue. Special actions are not subject to backpressure relief and
